@@ -26,12 +26,8 @@ def main(argv):
     if pid == 'setup':
         return driver.setup()
     if replay:
-        data = json.load(open(replay))
-        print(json.dumps(data.get('failure') or data.get('no_longer_checks'), indent=1)[:4000])
         mod = importlib.import_module('vlib.props.' + pid.lower())
-        if hasattr(mod, 'replay') and data.get('failure'):
-            return mod.replay(data['failure'])
-        return 0
+        return driver.replay(pid, mod.SPEC, replay)
     mod = importlib.import_module('vlib.props.' + pid.lower())
     return driver.run(pid, tier, seed, mod.SPEC)
 
